@@ -214,6 +214,11 @@ def check(data, start, end, opts, map_addrs=None, map_fmt=None, ini=(), dictiona
     return problems, 3
 
 
+# continuations of the swept instruction: a loop end, a RET and a second routine; a shifted decoding of
+# either turns them into different instructions (JP M / LD (nn),A swallowing the RETs)
+FOLLOWERS = ((0x20, 0xFA, 0xC9, 0x3E, 0x18, 0x32, 0x00, 0x5C, 0xC9),
+             (0x05, 0x00, 0x20, 0xF8, 0xC9, 0x21, 0x00, 0x5C, 0x36, 0xC9, 0xC9))
+
 OPTION_SETS = ((), ('-C',), ('-r',), ('-h',), ('-l',), ('-C', '-r'))
 INI_SETS = (('TextMinLengthCode=3',), ('TextMinLengthData=1',), ('TextMinLengthData=6',), ('TextChars=Helo',))
 
@@ -235,6 +240,12 @@ def cases(tier):
     for data in ((0x00, 0x21), (0xDD, 0x21), (0x3E, 0x01), (0x01, 0xCD), (0xFF, 0xED), (0x21, 0x21), (0x48, 0x69)):
         for tailcode in ((0x3E, 0x41, 0xC9), (0x00, 0x00, 0xC9), (0xAF, 0x18, 0xFE), (0xCD, 0x00, 0x80)):
             yield ('inline', (data, tailcode))
+    # every second byte after each prefix (and every unprefixed opcode) inside a small routine, followed by two
+    # different continuations: sna2ctl's code analysis and sna2skool's disassembler must agree on its size
+    for prefix in ((), (0xDD,), (0xFD,), (0xED,), (0xCB,), (0xDD, 0xCB, 0x05), (0xFD, 0xCB, 0xFB)):
+        for op in range(256):
+            for fi in range(len(FOLLOWERS)):
+                yield ('opsweep', (prefix, op, fi))
     # arbitrary maps: every subset of an 8-byte window on fixed images
     fixed = [(0, 8, 7), (15, 0), (7, 9, 13), (13, 14, 0, 18), (16, 1), (19, 20, 11, 0), (4, 0, 8, 19), (4, 8, 8, 8), (1, 8, 19), (21, 8, 19), (21, 7, 12), (21, 8, 7)]
     for fi, seq in enumerate(fixed):
@@ -297,6 +308,14 @@ def run_one(kind, spec, tier):
                 p, n = check(data, ORG, end, opts, addrs, fmt)
                 yield ('inline/{}/{}/{}/{}'.format(''.join('%02X' % b for b in inl), ''.join('%02X' % b for b in tailcode), fmt, ' '.join(opts) or '-'),
                        {'kind': 'map', 'raw': list(data), 'start': ORG, 'end': end, 'opts': list(opts), 'map': addrs, 'fmt': fmt}, p, n)
+    elif kind == 'opsweep':
+        prefix, op, fi = spec
+        data = bytes((0xDD, 0x2E, 0x08, 0x7E, 0x23) + tuple(prefix) + (op,) + FOLLOWERS[fi])
+        end = ORG + len(data)
+        for opts in ((), ('-C',)):
+            p, n = check(data, ORG, end, opts)
+            yield ('opsweep/{}{:02X}/{}/{}'.format(''.join('%02X' % b for b in prefix), op, fi, ' '.join(opts) or '-'),
+                   {'kind': 'plain', 'raw': list(data), 'start': ORG, 'end': end, 'opts': list(opts)}, p, n)
     else:
         seq, mask = spec
         data, starts = build(seq)
@@ -340,13 +359,13 @@ def run(tier, seed):
     meta = dict(
         rule='images = all token sequences of length <= {} over a 22-token alphabet x ranges (whole, first token dropped, last byte dropped) x options '
              '(none,-C,-r,-h,-l,-C -r; TextMinLength*/TextChars/Dictionary on sequences <= 2); execution-trace code maps from every token start in 5 '
-             'map formats for sequences <= {}; every subset (256) of an 8-byte window as an arbitrary map on 12 fixed images. states = distinct token '
+             'map formats for sequences <= {}; every subset (256) of an 8-byte window as an arbitrary map on 12 fixed images; every opcode byte after 7 prefixes (none, DD, FD, ED, CB, DDCB d, FDCB d) inside a routine with 2 continuations x (none,-C). states = distinct token '
              'sets'.format(3 if tier == 'quick' else 4, 2 if tier == 'quick' else 3),
         exhaustive=True,
         bound='token sequences <= {}'.format(3 if tier == 'quick' else 4),
         assumptions=['the generated control file is fed to sna2skool with default options (sna2ctl -r already writes the RST argument sub-blocks)',
                      'for arbitrary (non-trace) address sets only termination and tiling are required (as the property states); trace maps get every clause'],
-        required_guards=['plain', 'trace', 'subset', 'inline', 'fed_to_sna2skool'],
+        required_guards=['plain', 'trace', 'subset', 'inline', 'opsweep', 'fed_to_sna2skool'],
     )
     return stats, meta
 
